@@ -15,3 +15,4 @@ import Scfg.Props.C15
 import Scfg.Props.C17
 import Scfg.Props.C08
 import Scfg.Props.C10
+import Scfg.Props.C02
